@@ -278,6 +278,12 @@ def _huffman_history(ctx, exe):
             if off:
                 ctx.violation("Huffman:history:threshold-off-lattice:" + tag,
                               "tree thresholds %s are not multiples of 1/%d (%s)" % (off, S, what), rep)
+            sv = _line(out[ci], "sov")
+            esc_now = float(sv[2])
+            if esc_now != float(st["esc"]):
+                ctx.violation("Huffman:history:length-vs-escape-rate:" + tag,
+                              "the tree selects event i on a length rate_i/%d but the node's escape rate is %r (%s)"
+                              % (S, esc_now, what), rep)
             meas, bad = [0] * n, None
             for k in range(S):
                 a, b, c = sel[cell0 + 3 * k: cell0 + 3 * k + 3]
